@@ -20,13 +20,14 @@ class TopologicalSortPass(ir.passes.InPlacePass):
     """
 
     def call(self, model: ir.Model) -> ir.passes.PassResult:
-        original_nodes = list(model.graph)
+        # Graph.sort() also sorts the subgraphs, so compare the nodes of all of them
+        original_nodes = list(model.graph.all_nodes())
         model.graph.sort()
-        sorted_nodes = list(model.graph)
+        sorted_nodes = list(model.graph.all_nodes())
         for function in model.functions.values():
-            original_nodes.extend(function)
+            original_nodes.extend(function.all_nodes())
             function.sort()
-            sorted_nodes.extend(function)
+            sorted_nodes.extend(function.all_nodes())
 
         # Compare node orders to determine if any changes were made
         modified = False
